@@ -213,6 +213,7 @@ func Random(w *vt.W, rng *rand.Rand, n int, big, forceConc bool) {
 		ac := rng.Intn(2) == 0
 		conc := rng.Intn(3) == 0 || forceConc
 		cycles := 1 + rng.Intn(4)
+		vt.Beat(fmt.Sprintf("usage history %d: chunk size %d, concurrent %v, %d cycles", id, cs, conc, cycles))
 		var ops []Op
 		for c := 0; c < cycles; c++ {
 			counts := []int{0, 1, cs - 1, cs, cs + 1, cs + 1, cs + 2, 2*cs - 1, 2 * cs, 2*cs + 1, 3*cs + 2}
